@@ -32,9 +32,21 @@ from checks import udbl
 LEVEL = "proof"
 
 MUTATION_DRILLS = [
-    {"mutation": "LevelDb::MetaUpdate writes directly (db_->Update(kMeta+key, value, false)): the /tick update leaves the batch",
-     "ran": "VERIF_REPO=/var/tmp/wt-c11 VERIF_CACHE=/var/tmp/rime-verif-c11 bin/check C11 quick", "test_suite": "passes",
-     "fired": "see DRILL_RESULTS below (filled from the drill runs)"},
+    {"mutation": "LevelDb::MetaUpdate writes directly (`db_->Update(kMetaCharacter + key, value, false)`): the /tick update leaves the batch",
+     "ran": "scratch worktree of /repo: VERIF_REPO=/var/tmp/wt-c11 VERIF_CACHE=/var/tmp/rime-verif-c11 bin/check C11 quick",
+     "test_suite_with_mutation": "passes (ctest, guard off)",
+     "fired": "VIOLATION property=C11 with a failing kill point (found_failing_input=true): crash-state-outside-commit-prefixes:<schema>:op on all "
+              "three schemas, e.g. vscript, kill after call 6: reopened store has /tick = 1 and no entry (93 such kill points); protocol:<schema> too"},
+    {"mutation": "Memory::OnCommit ends with FinishSession(): the batch is committed inside OnCommit",
+     "ran": "same (in a copy of /verif)", "test_suite_with_mutation": "passes (ctest, guard off)",
+     "fired": "VIOLATION property=C11 ... no-failing-input-found: protocol:<schema> (an extra `commit` call right after the commit's writes) and "
+              "recovery-model:<schema>:op (reopened state is a legal commit prefix of the mutated code but not the model's: the commit is durable "
+              "before the following key, so BackSpace can no longer forget it) - atomicity itself is not broken, hence no failing kill point"},
+    {"mutation": "LevelDb::Update passes write_batch = false (`db_->Update(key, value, false)`): every update bypasses the batch",
+     "ran": "same", "test_suite_with_mutation": "passes (ctest, guard off)",
+     "fired": "VIOLATION property=C11 with a failing kill point (found_failing_input=true): crash-state-outside-commit-prefixes on all three schemas "
+              "(tick present without the entry / first entry of a two-entry commit without the second); protocol:<schema> fires as well "
+              "(a discarded commit stays in the store, so later counts differ from the model)"},
 ]
 
 
